@@ -108,7 +108,7 @@ cls('Explainer', file=F + 'base.py',
             lambda j: implies(land(0 <= i, i < j, j < s.feature_names.n), s.feature_names.arr[i] != s.feature_names.arr[j]))),
         'same_model': lambda s: s._imputer.model_function == s._model_function,
         # all trackers are copies of one base tracker: the same linear operator in lock-step
-        'lockstep': lambda s: land(
+        'lockstep': lambda s: implies(s.kind == 1, land(
             tr_same(s._marginal_loss_tracker, s._model_loss_tracker),
             s._marginal_loss_tracker.N == s._model_loss_tracker.N,
             tr_same(s._importance_trackers._base_tracker, s._model_loss_tracker),
@@ -116,13 +116,13 @@ cls('Explainer', file=F + 'base.py',
             s._importance_trackers.N == s._model_loss_tracker.N,
             forall_key(lambda k: implies(s._importance_trackers.tracked_value.dom[k],
                                          mv.TV(s._importance_trackers.tracked_value.val[k]).N == s._model_loss_tracker.N),
-                       pats=lambda k: [s._importance_trackers.tracked_value.val[k]])),
+                       pats=lambda k: [s._importance_trackers.tracked_value.val[k]]))),
         # importance values exist for no feature (before the first explanation) or exactly for the feature names
         'imp_dom': lambda s: lor(
             forall_key(lambda k: lnot(s._importance_trackers.tracked_value.dom[k])),
             forall_key(lambda k: s._importance_trackers.tracked_value.dom[k] == names_set(s.feature_names)(k),
                        pats=lambda k: [s._importance_trackers.tracked_value.dom[k]])),
-        'imp_dom_N': lambda s: implies(s._model_loss_tracker.N >= 1, forall_key(
+        'imp_dom_N': lambda s: implies(land(s.kind == 1, s._model_loss_tracker.N >= 1), forall_key(
             lambda k: s._importance_trackers.tracked_value.dom[k] == names_set(s.feature_names)(k),
             pats=lambda k: [s._importance_trackers.tracked_value.dom[k]])),
         # C01 efficiency (SAGE): the importance values sum to marginal loss - model loss
@@ -276,3 +276,270 @@ fn('Explainer.get_confidence_bound', F + 'base.py', src_cls='BaseIncrementalFeat
        'formula': _bound_clause,
        'variances_nonneg': lambda c: forall_key(lambda k: implies(c.res.dom[k], _var_of(c, k) >= 0)),
    })
+
+
+# =====================================================================================================================
+# constructors
+# =====================================================================================================================
+def _init_requires(alpha_optional):
+    req = {
+        'names_distinct': lambda c: forall_int(lambda i: forall_int(
+            lambda j: implies(land(0 <= i, i < j, j < c.a.feature_names.n),
+                              c.a.feature_names.arr[i] != c.a.feature_names.arr[j]))),
+        'n_inner_pos': lambda c: c.a.n_inner_samples >= 1,
+        # a user-supplied imputer evaluates the same (validated) model
+        'imputer_model': lambda c: implies(_given(c, 'imputer'), c.a.imputer.model_function == im.VALIDATE(c.a.model_function))
+        if _given(c, 'imputer') else True,
+        'alpha_range': lambda c: land(0 < c.a.smoothing_alpha, c.a.smoothing_alpha <= 1) if _given(c, 'smoothing_alpha') else True,
+        # user-supplied storage / imputer objects are well-formed objects of their classes
+        'storage_inv': lambda c: INV('Storage', c.a.storage.term) if _given(c, 'storage') else True,
+        'imputer_inv': lambda c: land(INV('Imputer', c.a.imputer.term), INV('Storage', c.a.imputer.storage_object.term))
+        if _given(c, 'imputer') else True,
+    }
+    return req
+
+
+def _given(c, name):
+    from pyvc.sym import NONE
+    return c.a._d.get(name) is not NONE and c.a._d.get(name) is not None
+
+
+def _fresh_state(c):
+    n = c.new
+    return land(n.seen_samples == 0, n.feature_names.t == c.a.feature_names.t,
+                n._marginal_loss_tracker.N == 0, n._model_loss_tracker.N == 0,
+                n._importance_trackers.N == 0, n._variance_trackers.N == 0, n._marginal_prediction_tracker.N == 0,
+                forall_key(lambda k: lnot(n._importance_trackers.tracked_value.dom[k])),
+                forall_key(lambda k: lnot(n._variance_trackers.tracked_value.dom[k])),
+                n._model_function == im.VALIDATE(c.a.model_function),
+                n._loss_function == VALIDATE_LOSS(c.a.loss_function))
+
+
+_init_params = {'model_function': TFnRole('model'), 'loss_function': TFnRole('loss'), 'feature_names': KeyList,
+                'storage': TOpt(TObj('Storage')), 'imputer': TOpt(TObj('Imputer')), 'n_inner_samples': TInt,
+                'dynamic_setting': TBool}
+
+fn('IncrementalPFI.__init__', F + 'pfi.py', kind='init', self_cls='Explainer',
+   params=dict(_init_params, smoothing_alpha=TNum), requires=_init_requires(False),
+   ghost_update=lambda c: {'kind': 0},
+   ensures={
+       'fresh_state': _fresh_state,
+       'cfg': lambda c: land(c.new.n_inner_samples == c.a.n_inner_samples, c.new._smoothing_alpha == c.a.smoothing_alpha),
+       # dynamic mode: exponential smoothing with the configured alpha started at zero; static mode: uniform mean
+       'tracker_kind': lambda c: land(c.new._importance_trackers._base_tracker.kind == ite(c.a.dynamic_setting, 1, 0),
+                                      implies(c.a.dynamic_setting,
+                                              c.new._importance_trackers._base_tracker.alpha == c.a.smoothing_alpha)),
+   })
+
+fn('IncrementalSage.__init__', F + 'sage/incremental.py', kind='init', self_cls='Explainer',
+   params=dict(_init_params, smoothing_alpha=TOpt(TNum), loss_bigger_is_better=TBool), requires=_init_requires(True),
+   ghost_update=lambda c: {'kind': 1},
+   lemmas=lambda c: lemmas.msum_empty_dom(NumDict, c.new._importance_trackers.tracked_value.dom,
+                                          PROJ_TV(c.new._importance_trackers.tracked_value.val)),
+   ensures={
+       'fresh_state': _fresh_state,
+       'cfg': lambda c: land(c.new.n_inner_samples == c.a.n_inner_samples,
+                             c.new._smoothing_alpha == (c.a.smoothing_alpha if _given(c, 'smoothing_alpha') else z3.RealVal('0.001')),
+                             c.new._loss_direction == ite(c.a.loss_bigger_is_better, 1, 0)),
+       'tracker_kind': lambda c: land(c.new._importance_trackers._base_tracker.kind == ite(c.a.dynamic_setting, 1, 0),
+                                      implies(c.a.dynamic_setting,
+                                              c.new._importance_trackers._base_tracker.alpha == c.new._smoothing_alpha)),
+   })
+
+
+# =====================================================================================================================
+# IncrementalPFI.explain_one   (C02, C15, C16, C17)
+# =====================================================================================================================
+LOSSCOL = z3.Function('loss_column', sym.FnS, sym.ValS, PredList.sort(), z3.ArraySort(z3.IntSort(), z3.RealSort()))
+MEANLOSS = z3.Function('mean_loss', sym.FnS, sym.ValS, PredList.sort(), z3.RealSort())
+PredListDict = TDict(TKey, PredList)
+
+
+def meanloss_axioms(fn_, y):
+    """spec functions: LOSSCOL(P)[j] = L(y, P[j]);  MEANLOSS(P) = (1/n) * sum_j L(y, P[j])  (n = len(P) >= 1)"""
+    P = z3.Const('ml!P', PredList.sort())
+    j = z3.Int('ml!j')
+    return [sym.forall([P, j], LOSSCOL(fn_, y, P)[j] == LOSS(fn_, y, PredList.arr(P)[j]), [LOSSCOL(fn_, y, P)[j]]),
+            sym.forall([P], z3.Implies(PredList.n(P) >= 1, MEANLOSS(fn_, y, P) * z3.ToReal(PredList.n(P)) ==
+                                       lemmas.ssum(LOSSCOL(fn_, y, P), PredList.n(P))), [MEANLOSS(fn_, y, P)])]
+
+
+def _impute_calls(events):
+    return [e for e in events if e['kind'] == 'call' and e['callee'].startswith('Imputer.impute')]
+
+
+def _n_eff(c_or_l):
+    """the number of inner samples in force: the per-call override or the constructor value"""
+    a = c_or_l.a
+    from pyvc.sym import NONE
+    if a._d.get('n_inner_samples') is NONE:
+        return (c_or_l.old if hasattr(c_or_l, 'old') else c_or_l.entry_self).n_inner_samples
+    return a.n_inner_samples
+
+
+def _tracker_or_base(mvt_view, k):
+    """the tracker of key k before an update: its own tracker if tracked, else a fresh base copy"""
+    T = mvt_view.tracked_value
+    return ite(T.dom[k], T.val[k], mvt_view._base_tracker.term)
+
+
+def _pfi_value(c, PR, k):
+    """the per-observation PFI contribution of feature k: mean loss of the inner predictions - loss of the original one"""
+    lossf, y = c.old._loss_function, c.a.y_i
+    return MEANLOSS(lossf, y, PR.val[k]) - LOSS(lossf, y, MODEL(c.old._model_function, c.a.x_i.t))
+
+
+def _local(c, name, typ):
+    """a local of the body at exit, bound by name (a rename makes the verdict undecided, not a violation)"""
+    v = c.run.env.get(name)
+    if v is None or getattr(v, 'typ', None) != typ:
+        if c.old is not None and name in ('pfi', 'variances', 'marginal_contributions'):
+            return typ.empty()      # path on which nothing was explained
+        raise KeyError(f"local {name} not bound")
+    return v.t
+
+
+def _upd_by(c, field, dict_term):
+    """new.field is old.field after MultiValueTracker.update(dict): the per-key specification of multi_value.py"""
+    o, n = getattr(c.old, field), getattr(c.new, field)
+    from pyvc.sym import SDict
+    d = SDict(NumDict, dict_term)
+    return land(mv._pointwise(o.tracked_value, o._tracked_keys, o._base_tracker, d, n.tracked_value, n._tracked_keys),
+                n.N == o.N + 1, n._base_tracker.term == o._base_tracker.term)
+
+
+def _pfi_post_importance(c):
+    """importance trackers are stepped with the dict PFI; PFI has exactly the feature names as keys and
+    PFI[f] = mean loss of the inner predictions for f - loss of the unperturbed prediction"""
+    PR, PFI = c.gout.PR, c.gout.PFI
+    names = c.old.feature_names
+    return implies(c.old.seen_samples >= 1, land(
+        _upd_by(c, '_importance_trackers', PFI.t),
+        forall_key(lambda k: PFI.dom[k] == names_set(names)(k), pats=lambda k: [PFI.dom[k]]),
+        forall_int(lambda i: implies(land(0 <= i, i < names.n), land(
+            PR.dom[names.arr[i]], PFI.val[names.arr[i]] == _pfi_value(c, PR, names.arr[i]))))))
+
+
+def _pfi_post_variance(c):
+    """variance trackers are stepped with the dict VARS; VARS[f] = (PFI[f] - UPDATED importance[f])^2"""
+    PFI, VARS = c.gout.PFI, c.gout.VARS
+    names = c.old.feature_names
+    newT = c.new._importance_trackers.tracked_value
+
+    def dev(k):
+        d = PFI.val[k] - mv.TV(newT.val[k]).tracked_value
+        return d * d
+    return implies(c.old.seen_samples >= 1, land(
+        _upd_by(c, '_variance_trackers', VARS.t),
+        forall_key(lambda k: VARS.dom[k] == names_set(names)(k), pats=lambda k: [VARS.dom[k]]),
+        forall_int(lambda i: implies(land(0 <= i, i < names.n), VARS.val[names.arr[i]] == dev(names.arr[i])))))
+
+
+def _estimates_unchanged(c):
+    o, n = c.old, c.new
+    return land(n._importance_trackers.term == o._importance_trackers.term,
+                n._variance_trackers.term == o._variance_trackers.term,
+                n._marginal_loss_tracker.term == o._marginal_loss_tracker.term,
+                n._model_loss_tracker.term == o._model_loss_tracker.term,
+                n._marginal_prediction_tracker.term == o._marginal_prediction_tracker.term,
+                n.marginal_prediction.t == o.marginal_prediction.t if o.has('marginal_prediction') else True)
+
+
+def _storage_last(c):
+    """the storage is updated exactly once, with (x, y), after every model / loss / imputer event - or not at all"""
+    ev = c.events
+    su = [i for i, e in enumerate(ev) if e['kind'] == 'call' and e['callee'] == 'Storage.update']
+    others = [i for i, e in enumerate(ev) if e['kind'] in ('model', 'loss', 'model_batch') or
+              (e['kind'] == 'call' and e['callee'].startswith('Imputer.impute'))]
+    if len(su) > 1:
+        return False
+    if not su:
+        return lnot(c.a.update_storage)
+    e = ev[su[0]]
+    return land(c.a.update_storage, all(j < su[0] for j in others), e['args']['x'].t == c.a.x_i.t,
+                pack_val(e['args']['y']) == c.a.y_i)
+
+
+def pack_val(v):
+    from pyvc.sym import pack, TVal
+    return pack(v, TVal)
+
+
+_explain_params = {'x_i': InstT, 'y_i': TVal, 'n_inner_samples': TOpt(TInt), 'update_storage': TBool}
+
+
+def _explain_requires():
+    return {'n_inner_pos': lambda c: (c.a.n_inner_samples >= 1) if _given(c, 'n_inner_samples') else c.old.n_inner_samples >= 1,
+            'n_inner_cfg': lambda c: c.old.n_inner_samples >= 1}
+
+
+def _explain_lemmas_entry(c):
+    return meanloss_axioms(c.old._loss_function, c.a.y_i) + lemmas.ssum_congr_axiom()
+
+
+def _reveal_updates(c):
+    """definitions of the opaque step relation and invariant, for every tracker term (quantified over tracker terms)"""
+    t0 = z3.Const('ru!t0', TrackerT.sort())
+    t1 = z3.Const('ru!t1', TrackerT.sort())
+    v = z3.Real('ru!v')
+    return [sym.forall([t0, v, t1], tr.reveal_upd(t0, v, t1), [tr.UPD(t0, v, t1)])]
+
+
+fn('IncrementalPFI.explain_one', F + 'pfi.py', self_cls='Explainer', params=_explain_params,
+   requires=dict(_explain_requires(), kind=lambda c: c.old.kind == 0),
+   entry_lemmas=lambda c: _explain_lemmas_entry(c) + tr.reveal_upd_parts(['lo0', 'family', 'inv']),
+   ret=NumDict, local_types={'pfi': NumDict},
+   modifies=['_importance_trackers', '_variance_trackers', 'seen_samples', '_storage'],
+   raises={'CallbackError': {'post': {'estimates_untouched': _estimates_unchanged}}},
+   ghost_out={'PR': (PredListDict, lambda c: c.run.last_loop.g.PR.t if c.run.last_loop is not None else PredListDict.empty()),
+              'PFI': (NumDict, lambda c: _local(c, 'pfi', NumDict)), 'VARS': (NumDict, lambda c: _local(c, 'variances', NumDict))},
+   counts={'storage_update': lambda c: ite(c.a.update_storage, 1, 0)},
+   ensures={
+       # C02: importance'[f] = step(importance[f], mean imputed loss - original loss); nothing on the first observation
+       'pfi_importance': _pfi_post_importance,
+       'pfi_variance': _pfi_post_variance,
+       'first_only_seeds': lambda c: implies(c.old.seen_samples == 0, land(_estimates_unchanged(c), c.added('model') == 0,
+                                                                           c.added('loss') == 0, c.added('impute') == 0)),
+       'no_other_keys': lambda c: implies(c.old.seen_samples >= 1, forall_key(
+           lambda k: implies(lnot(names_set(c.old.feature_names)(k)),
+                             c.new._importance_trackers.tracked_value.dom[k] == c.old._importance_trackers.tracked_value.dom[k]))),
+       # C15
+       'seen': lambda c: c.new.seen_samples == c.old.seen_samples + 1,
+       'budget': lambda c: implies(c.old._imputer.kind == 1, c.added('model') == ite(
+           c.old.seen_samples == 0, 0, 1 + c.old.feature_names.n * _n_eff(c))),
+       'impute_calls': lambda c: c.added('impute') == ite(c.old.seen_samples == 0, 0, c.old.feature_names.n),
+       'storage_last': _storage_last,
+       'result_is_property': lambda c: c.res.t == pure_call('Explainer.importance_values', c.new).t,
+       'args_unchanged': lambda c: land(c.a_new.x_i.t == c.a.x_i.t, c.a_new.y_i == c.a.y_i),
+   },
+   loops=[loop(
+       counters=['impute', 'model', 'loss'],
+       ghosts={'PR': (PredListDict, lambda l: PredListDict.empty(),
+                      lambda l: PredListDict.mk(z3.Store(l.g.PR.dom, pack_key(l.elem), True),
+                                                z3.Store(l.g.PR.val, pack_key(l.elem), _impute_calls(l.body_events)[-1]['res'].t)))},
+       inv={
+           'pfi_dom': lambda l: forall_key(lambda k: l.v.pfi.dom[k] == exists_int(
+               lambda j: land(0 <= j, j < l.i, l.self.feature_names.arr[j] == k)), pats=lambda k: [l.v.pfi.dom[k]]),
+           'pfi_val': lambda l: forall_int(lambda j: implies(land(0 <= j, j < l.i), land(
+               l.g.PR.dom[l.self.feature_names.arr[j]],
+               l.v.pfi.val[l.self.feature_names.arr[j]] ==
+               MEANLOSS(l.self._loss_function, l.a.y_i, l.g.PR.val[l.self.feature_names.arr[j]]) - l.v.original_loss))),
+           'calls': lambda l: land(l.cnt('impute') == l.entry_cnt('impute') + l.i,
+                                   implies(l.self._imputer.kind == 1, l.cnt('model') == l.entry_cnt('model') + l.i * l.v.n_inner_samples)),
+           'frame': lambda l: land(l.v.x_i.t == l.a.x_i.t, l.v.n_inner_samples == l.entry.n_inner_samples,
+                                   l.v.original_loss == l.entry.original_loss),
+       },
+       body={
+           # the imputer is asked for exactly this one feature, the instance itself and n inner samples
+           'single_feature_subset': lambda l: land(
+               len(_impute_calls(l.body_events)) == 1,
+               _impute_calls(l.body_events)[0]['args']['feature_subset'].n == 1,
+               _impute_calls(l.body_events)[0]['args']['feature_subset'].arr[0] == pack_key(l.elem),
+               _impute_calls(l.body_events)[0]['args']['x_i'].t == l.a.x_i.t,
+               _impute_calls(l.body_events)[0]['args']['n_samples'].t == l.v.n_inner_samples),
+       })])
+
+
+def pack_key(v):
+    from pyvc.sym import pack
+    return pack(v)
